@@ -79,7 +79,12 @@ def gen(seed, tier):
     dscript += [["sleep", rng.choice([2.0, 3.0, 6.0])], ["mark", "before-shutdown"], ["shutdown"]]
     knobs["horizon"] = 60.0
     rng.shuffle(payloads)
-    return {"prop": "C11", "seed": seed, "knobs": knobs, "payloads": payloads, "drivers": [{"id": "d0", "script": dscript}], "grace": 0.5}
+    drivers = [{"id": "d0", "script": dscript}]
+    if rng.random() < 0.12:
+        # other runners try to accept while this one is active: each attempt is refused, so there is
+        # still one event loop and one trio run for everything created afterwards
+        drivers.append({"id": "d1", "script": [["wait-running"]] + [x for _ in range(rng.choice([1, 2, 3])) for x in (["sleep", rng.choice([0.0, 0.05])], ["accept-second"])]})
+    return {"prop": "C11", "seed": seed, "knobs": knobs, "payloads": payloads, "drivers": drivers, "grace": 0.5}
 
 
 def main(h):
